@@ -63,7 +63,11 @@ def rule_consumption(rep: Report, repo: Repo, rule: str) -> None:
 
 def _late_rules(rep, repo):
     from . import bindings, render
-    bindings.rule_test_bindings(rep, repo, "C02-R8", "C02-R8f")        # "arguments as written and in order" for the CTest kind
-    render.rule_render_total(rep, repo, "C02-R9")                       # members appear: rendering cannot raise
-    protocol.rule_rejections(rep, repo, "C02-R10")
-    protocol.rule_accepted_arities(rep, repo, "C02-R11")
+    with rep.isolated():
+        bindings.rule_test_bindings(rep, repo, "C02-R8", "C02-R8f")        # "arguments as written and in order" for the CTest kind
+    with rep.isolated():
+        render.rule_render_total(rep, repo, "C02-R9")                       # members appear: rendering cannot raise
+    with rep.isolated():
+        protocol.rule_rejections(rep, repo, "C02-R10")
+    with rep.isolated():
+        protocol.rule_accepted_arities(rep, repo, "C02-R11")
